@@ -19,6 +19,25 @@ FLAGS = ("positive_init_speed", "positive_init_density", "positive_init_queue",
 NOFLAGS = {f: False for f in FLAGS}
 
 
+# construction history used by step_numpy / cas_function when the caller passes no builder: a check whose work item is
+# "topology under history h" sets it once, so that encoder validation and the replay of solver models run the real code
+# on a network with the SAME history (a failure that only a non-fresh network shows must reproduce to be reported)
+DEFAULT_HIST = None
+
+
+def set_default_history(name):
+    global DEFAULT_HIST
+    DEFAULT_HIST = None if name in (None, "fresh") else name
+
+
+def _default_builder():
+    if DEFAULT_HIST is None:
+        return None
+    from . import netcheck
+
+    return netcheck.history_builders()[DEFAULT_HIST]
+
+
 def flags_of(bits):
     return {f: bool(bits >> i & 1) for i, f in enumerate(FLAGS)}
 
@@ -130,6 +149,8 @@ def symvar_engine():
 def step_numpy(topo, P, X, flags=None, engine=None, order=None, copy_inputs=False, builder=None):
     """build + step with the real NumPy engine; returns (built, next-state dict).
     builder: optional callable(topo, P, first_engine) -> Built for non-standard construction histories."""
+    if builder is None and order is None:
+        builder = _default_builder()
     built = builder(topo, P, None) if builder else T_.build(topo, P, order=order)
     eng = engine or numpy_engine()
     ic = init_conditions(built, X)
@@ -202,6 +223,8 @@ def cas_function(topo, symtype="SX", numeric=None, compact=0, more_out=False, fl
     """real step with the CasADi engine + to_function.  Returns (F, built, P, symbolic-params).
     `declare`: optional ordered list of parameter names to declare (default: all symbolic ones)."""
     P, symbolic = cas_params(topo, symtype, numeric, same_display_names)
+    if builder is None and order is None and rename is None:
+        builder = _default_builder()
     built = builder(topo, P, casadi_engine(symtype)) if builder else T_.build(topo, P, order=order, rename=rename)
     eng = casadi_engine(symtype)
     kw = T_.model_kwargs(topo, P)
